@@ -32,6 +32,19 @@ class Boom:
         raise RuntimeError('lexing started before the options were validated')
 
 
+def _safe_repr(d):
+    out = []
+    for k, v in d.items():
+        if isinstance(v, int) and not isinstance(v, bool) and v.bit_length() > 14000:
+            out.append('%r: HUGEINT' % (k,))
+        else:
+            try:
+                out.append('%r: %r' % (k, v))
+            except Exception:  # noqa
+                out.append('%r: <unprintable>' % (k,))
+    return ('{' + ', '.join(out) + '}')[:20000]
+
+
 def oracle_dict(d):
     """None, or a failure record: an exception other than SQLParseError escapes format(sql, **d), or an
     invalid dictionary is not rejected before the text is touched."""
@@ -39,7 +52,7 @@ def oracle_dict(d):
     from sqlparse.exceptions import SQLParseError
     enc = impl_opt.enc_opts(d)
     rejected = False
-    _r = repr(d)[:20000]
+    _r = _safe_repr(d)
     try:
         sqlparse.formatter.validate_options(dict(d))
     except SQLParseError:
@@ -77,7 +90,7 @@ CLASS_PRED = {
     # int(float('inf')) raises OverflowError; the handlers catch (ValueError, TypeError) only
     'opt-float-inf-overflow': lambda f: 'OverflowError' in f.get('observed', '') and re.search(r'\binf\b', _optrepr(f)) is not None,
     # repr() of an int beyond the interpreter's digit limit raises ValueError while the SQLParseError message is built
-    'opt-huge-int-repr': lambda f: 'ValueError' in f.get('observed', '') and re.search(r'\d{4300,}', _optrepr(f)) is not None,
+    'opt-huge-int-repr': lambda f: 'ValueError' in f.get('observed', '') and 'HUGEINT' in _optrepr(f),
     # truncate_char is documented but never validated: a non-str value fails inside ''.join at formatting time
     'opt-truncate-char-not-validated': lambda f: 'TypeError' in f.get('observed', '')
     and re.search(r"'truncate_char': (?!['\"])", _optrepr(f)) is not None and 'truncate_strings' in _optrepr(f),
